@@ -1,0 +1,145 @@
+//go:build verif
+
+package ttlv
+
+import "reflect"
+
+// This file is only compiled with the "verif" build tag. It exposes read-only
+// views of package internals to the external verification harness. It adds
+// no behaviour to the library.
+
+// VerifField describes how the reflective codec will treat one struct field.
+type VerifField struct {
+	Index      int
+	Name       string
+	Skipped    bool // unexported or tagged "-"
+	Tag        int  // resolved numeric tag, 0 = dynamic (interface without tag)
+	OmitEmpty  bool
+	SetVersion bool
+	HasRange   bool
+	StartSet   bool
+	StartMajor int
+	StartMinor int
+	EndSet     bool
+	EndMajor   int
+	EndMinor   int
+}
+
+// VerifPlan returns, for a struct type, the per-field plan computed by the
+// library's own getFieldInfo / getFieldTag.
+func VerifPlan(ty reflect.Type) []VerifField {
+	var out []VerifField
+	for i := range ty.NumField() {
+		fldT := ty.Field(i)
+		vf := VerifField{Index: i, Name: fldT.Name}
+		if !fldT.IsExported() {
+			vf.Skipped = true
+			out = append(out, vf)
+			continue
+		}
+		info := getFieldInfo(fldT)
+		if info.tag == "-" {
+			vf.Skipped = true
+			out = append(out, vf)
+			continue
+		}
+		vf.Tag = getFieldTag(fldT, info.tag)
+		vf.OmitEmpty = info.omitempty
+		vf.SetVersion = info.setVersion
+		if info.vrange != nil {
+			vf.HasRange = true
+			if info.vrange.start != nil {
+				vf.StartSet = true
+				vf.StartMajor = info.vrange.start.major
+				vf.StartMinor = info.vrange.start.minor
+			}
+			if info.vrange.end != nil {
+				vf.EndSet = true
+				vf.EndMajor = info.vrange.end.major
+				vf.EndMinor = info.vrange.end.minor
+			}
+		}
+		out = append(out, vf)
+	}
+	return out
+}
+
+// VerifTagForType returns the default tag of a type (0 if none).
+func VerifTagForType(ty reflect.Type) int {
+	t, err := getTagForType(ty)
+	if err != nil {
+		return 0
+	}
+	return t
+}
+
+// VerifIsEnum / VerifIsBitmask report the registry's classification of a type.
+func VerifIsEnum(ty reflect.Type) bool    { return isEnum(ty) }
+func VerifIsBitmask(ty reflect.Type) bool { return isBitmask(ty) }
+
+// VerifRegistry is a deep copy of the name registries.
+type VerifRegistry struct {
+	TagByName     map[string]int
+	TagNames      map[int]string
+	EnumNames     map[int]map[uint32]string
+	EnumsByName   map[int]map[string]uint32
+	BitmaskNames  map[int][]string
+	BitmaskByName map[int]map[string]int32
+	TypeNames     map[uint8]string
+	NameTypes     map[string]uint8
+}
+
+// VerifRegistryDump copies the live registry maps.
+func VerifRegistryDump() VerifRegistry {
+	r := VerifRegistry{
+		TagByName:     map[string]int{},
+		TagNames:      map[int]string{},
+		EnumNames:     map[int]map[uint32]string{},
+		EnumsByName:   map[int]map[string]uint32{},
+		BitmaskNames:  map[int][]string{},
+		BitmaskByName: map[int]map[string]int32{},
+		TypeNames:     map[uint8]string{},
+		NameTypes:     map[string]uint8{},
+	}
+	for k, v := range tagByName {
+		r.TagByName[k] = v
+	}
+	for k, v := range tagNames {
+		r.TagNames[k] = v
+	}
+	for k, m := range enumNames {
+		r.EnumNames[k] = map[uint32]string{}
+		for a, b := range m {
+			r.EnumNames[k][a] = b
+		}
+	}
+	for k, m := range enumsByName {
+		r.EnumsByName[k] = map[string]uint32{}
+		for a, b := range m {
+			r.EnumsByName[k][a] = b
+		}
+	}
+	for k, l := range bitmaskNames {
+		r.BitmaskNames[k] = append([]string(nil), l...)
+	}
+	for k, m := range bitmaskByName {
+		r.BitmaskByName[k] = map[string]int32{}
+		for a, b := range m {
+			r.BitmaskByName[k][a] = b
+		}
+	}
+	for k, v := range typesName {
+		r.TypeNames[uint8(k)] = v
+	}
+	for k, v := range nameTypes {
+		r.NameTypes[k] = uint8(v)
+	}
+	return r
+}
+
+// VerifCacheLens reports the sizes of the two plan caches.
+func VerifCacheLens() (enc, dec int) {
+	encodeFuncsCache.Range(func(_, _ any) bool { enc++; return true })
+	decodeFuncsCache.Range(func(_, _ any) bool { dec++; return true })
+	return
+}
